@@ -208,6 +208,14 @@ class Result:
         if dev["prop"] == "SKIP":
             self.cov["skipped"] += 1
             return
+        if code.startswith("INFO:"):
+            # an observation that goes beyond what the property states (e.g. WHICH errors an invalid
+            # text is rejected with): recorded in the evidence, never a violation
+            self.cov["informational_differences"] = self.cov.get("informational_differences", 0) + 1
+            ex = self.notes.setdefault("informational_examples", [])
+            if len(ex) < 5:
+                ex.append("%s [%s] %s: %s" % (dev["prop"], dev["inst"], code, dev["detail"][:300]))
+            return
         if code.startswith("KF:"):
             for k in self.known:
                 if k["signature"] == code and k["status"] == "open":
